@@ -102,16 +102,16 @@ def instances(tier, seed):
     out = []
     for s in progs:
         for fold in (False, True):
-            for mode in ('eval', 'train'):
+            for mode in (('eval', 'train', 'mixed') if s in progs[:3] else ('eval', 'train')):
                 out.append({'id': f'PIT:{pitlib.prog_id(s)}:fold={int(fold)}:{mode}', 'what': 'pit', 'spec': s, 'fold': fold, 'mode': mode, 'wseed': seed})
-    sns = [{'n': 2, 'kind': 'conv'}, {'n': 3, 'kind': 'seq'}, {'n': 3, 'kind': 'mix'}]
+    sns = [{'n': 2, 'kind': 'conv'}, {'n': 3, 'kind': 'seq'}, {'n': 3, 'kind': 'mix'}, {'n': 2, 'kind': 'conv', 'bn': True}]
     if tier == 'thorough':
         sns += [{'n': 2, 'kind': 'mix', 'blocks': 2, 'twice': True}, {'n': 4, 'kind': 'user'}]
     for s in sns:
-        for mode in ('eval', 'train'):
+        for mode in ('eval', 'train', 'mixed'):
             out.append({'id': f'SuperNet:{snlib.prog_id(s)}:{mode}', 'what': 'sn', 'spec': s, 'mode': mode, 'wseed': seed})
     for s in ({'fam': 'D2', 'C': 2, 'cin': 2}, {'fam': 'L1'}):
-        for mode in ('eval', 'train'):
+        for mode in ('eval', 'train', 'mixed'):
             out.append({'id': f'MPS:{pitlib.prog_id(s)}:{mode}', 'what': 'mps', 'spec': s, 'mode': mode, 'wseed': seed})
     return out
 
@@ -168,6 +168,18 @@ def _sd_equal(a, b):
     return None
 
 
+_MODE_SENSITIVE = (nn.modules.batchnorm._BatchNorm, nn.modules.dropout._DropoutNd, nn.modules.instancenorm._InstanceNorm)
+
+
+def _set_mode(model, mode):
+    """'eval' / 'train' / 'mixed' (training parent, first child frozen in eval mode)"""
+    model.train(mode != 'eval')
+    if mode == 'mixed':
+        kids = [k for k in model.children() if any(isinstance(m, _MODE_SENSITIVE) for m in k.modules())] or list(model.children())
+        if kids:
+            kids[0].eval()
+
+
 def concrete_case(rec):
     """plain torch observation of one configuration; returns dict of problems"""
     what, spec, mode = rec['what'], rec['spec'], rec['mode']
@@ -177,7 +189,8 @@ def concrete_case(rec):
         model, shape = snlib.build(spec, rec.get('wseed', 0))
     else:
         model, shape = pitlib.build_program(spec, rec.get('wseed', 0))
-    model.train(mode == 'train')
+    _set_mode(model, mode)
+    flags0 = {n: m.training for n, m in model.named_modules() if isinstance(m, _MODE_SENSITIVE)}
     xs = _inputs(model, shape, spec, False, rec['x']) if rec.get('x') else [torch.zeros((1,) + tuple(shape))] * (2 if spec.get('fam') == 'M2' else 1)
     sd0 = copy.deepcopy(model.state_dict())
     with torch.no_grad():
@@ -195,12 +208,18 @@ def concrete_case(rec):
         from plinio.methods import MPS
         from plinio.methods.mps import get_default_qinfo
         w = MPS(model, input_shape=shape, qinfo=get_default_qinfo((8,), (8,)))
-    if what != 'sn' and w.training != (mode == 'train'):
+    if what != 'sn' and w.training != (mode != 'eval'):
         probs['wrapper_mode'] = f'wrapper.training={w.training}, model was handed over in {mode} mode'
-    if what != 'sn' and w.seed.training != (mode == 'train'):
+    if what != 'sn' and w.seed.training != (mode != 'eval'):
         probs['seed_mode'] = f'seed.training={w.seed.training}, model was handed over in {mode} mode'
-    if model.training != (mode == 'train'):
-        probs['user_model_mode'] = f'user model.training={model.training} after conversion, was {mode == "train"}'
+    flags1 = {n: m.training for n, m in model.named_modules() if isinstance(m, _MODE_SENSITIVE)}
+    if model.training != (mode != 'eval'):
+        probs['user_model_mode'] = f'user model.training={model.training} after conversion, was {mode != "eval"}'
+    elif flags1 != flags0:
+        # every module of the user's model whose behaviour depends on the flag (BatchNorm, Dropout), not only the root: a sub-module deliberately
+        # left in eval mode inside a training parent (frozen stem) computes something else once its flag is flipped
+        diff = {n: (flags0[n], flags1.get(n)) for n in flags0 if flags1.get(n) != flags0[n]}
+        probs['user_model_mode'] = f'training flags of the user model changed by the conversion (module: (before, after)): {diff}'
     if what != 'mps':
         e = _sd_equal(sd0, model.state_dict())
         if e:
@@ -257,7 +276,7 @@ def run_instance(p):
     # concrete side conditions (no quantifier)
     probs = concrete_case(dict(base, x=None))
     for obs in ('wrapper_mode', 'seed_mode', 'user_model_mode', 'user_model_state', 'exported_arch'):
-        applicable = not (what == 'sn' and obs in ('wrapper_mode', 'seed_mode', 'user_model_mode')) and not (what == 'mps' and obs in ('user_model_state', 'exported_arch'))
+        applicable = not (what == 'sn' and obs in ('wrapper_mode', 'seed_mode')) and not (what == 'mps' and obs in ('user_model_state', 'exported_arch'))
         if not applicable:
             continue
         res.oblige(obs not in probs)
@@ -274,7 +293,7 @@ def run_instance(p):
         model, shape = snlib.build(spec, wseed)
     else:
         model, shape = pitlib.build_program(spec, wseed)
-    model.train(mode == 'train')
+    _set_mode(model, mode)
     ref = copy.deepcopy(model).eval()
     if what == 'pit':
         from plinio.methods import PIT
